@@ -8,7 +8,7 @@ from ..battery import call, _Raised
 from ..models import KEYS
 from ..observe import observe
 
-TIERS = {"quick": 600, "thorough": 8000}
+TIERS = {"quick": 600, "thorough": 12000}
 WATCHDOG_S = {"quick": 900, "thorough": 7200}
 RULE = ("case kinds by index mod 8: 0-4 random Hypergraph (non-contiguous / string / numpy / big labels, isolated nodes, "
         "weighted or not; every order 0..max+1 present or absent, keep_isolated_nodes both); 5 dense stress family (all "
